@@ -21,7 +21,11 @@ from sklearn.base import BaseEstimator
 from common import enc_list
 
 REQUIRED = ['split_partition', 'pairing_ne', 'pairing_double', 'trainOf_schedule', 'no_leak', 'schedule_leakFree',
-            'predicted_once', 'double_models_differ', 'crossfit_sound']
+            'predicted_once', 'double_models_differ', 'crossfit_sound',
+            # Props/C04_Gen.lean: ties of the regenerated split / pairing code (Gen/XfitSplit.lean) to the model
+            'sample_split_generated', 'nuisance_generated', 'min_splits_generated', 'single_crossfit_generated_single',
+            'single_crossfit_generated_double', 'split_partition_generated', 'crossfit_sound_generated_single',
+            'crossfit_sound_generated_double', 'crossfit_generated', 'crossfit_sound_generated']
 RULE = ('configuration cells enumerated: 4 estimator classes x n_splits 2..6 (3..6 double) x n_partitions 1..4; per '
         'cell random sample size (incl. sizes not divisible by n_splits and tiny parts), random learner kind '
         '(predict_proba spy / predict-only spy / spy wrapping a real sklearn learner), binary or continuous outcome, '
@@ -304,6 +308,22 @@ def canon(part):
     return '|'.join(out)
 
 
+def observed_uses(part):
+    """what each pass of the prediction loop handed to _generate_predictions_, in the notation of the driver's `uses`
+    field: predicted rows > rows the treatment copy was fitted on > rows the outcome copy was fitted on"""
+    fitted = {e['fit_id']: e['ids'] for e in part if e['ev'] == 'fit'}
+    preds = [e for e in part if e['ev'] == 'pred']
+    out = []
+    for i in range(0, len(preds) - 2, 3):
+        t, y1, y2 = preds[i:i + 3]
+        if not (t['role'] == 't' and y1['role'] == 'y' and y2['role'] == 'y' and y1['fit_id'] == y2['fit_id']
+                and t['ids'] == y1['ids'] == y2['ids']):
+            return 'unexpected call pattern'
+        out.append('>'.join(enc_list(fitted.get(e['fit_id'], ['stale']) if j else e['ids'], str)
+                            for j, e in enumerate((t, t, y1))))
+    return '|'.join(out)
+
+
 def nan_equal(a, b):
     return json.dumps(a) == json.dumps(b)      # NaN serialises as NaN: pattern compared exactly
 
@@ -379,8 +399,10 @@ def analyse(chk, drv, case, st, log1, err1, lside, rows, double):
         chk.k(err1 is not None and err1.startswith('ValueError') and not log1,
               'n_splits below the minimum is rejected before any learner call', {'case': case, 'err': err1})
         if drv is not None:
-            rep, line = drv.ask('crossfit', double=int(double), k=k, rows=enc_list(rows, str), picks='-')
-            chk.k(rep['status'] == 'err', 'model rejects n_splits below the minimum', {'case': case, 'model': rep})
+            rep, line = drv.ask('crossfit', cls=case['cls'], k=k, rows=enc_list(rows, str), picks='-')
+            chk.k(rep['status'] == 'err' and rep.get('model') == '1',
+                  'regenerated n_splits guard (and the model) reject n_splits below the minimum',
+                  {'case': case, 'model': rep})
         return
     if err1 is not None:
         if lside:
@@ -418,11 +440,13 @@ def analyse(chk, drv, case, st, log1, err1, lside, rows, double):
         chk.k(seed_ok, 'parts equal the documented seeded sampling procedure', dict(ctx, observed=obs_splits))
         # ---- K: the model, given the observed draws, reproduces all parts and the exact call sequence
         if drv is not None:
-            rep, line = drv.ask('crossfit', double=int(double), k=k, rows=enc_list(rows, str),
+            # (executed: the partition assembled from the code regenerated from crossfit.py, Model/CrossfitGen.lean;
+            #  `model` = the hand-written model of Props/C04.lean returns the same, as `crossfit_generated` proves)
+            rep, line = drv.ask('crossfit', cls=case['cls'], k=k, rows=enc_list(rows, str),
                                 picks=';'.join(enc_list(s, str) for s in obs_splits[:-1]))
             want = ';'.join(enc_list(s, str) for s in obs_splits)
             ok = rep['status'] == 'ok' and rep.get('splits') == want and rep.get('trace') == canon(part) \
-                and rep.get('leakfree') == '1'
+                and rep.get('leakfree') == '1' and rep.get('uses') == observed_uses(part) and rep.get('model') == '1'
             # documented preference of _ml_predictor: predict_proba when the learner has it (not part of the property)
             ok = ok and all(e['how'] == 'proba' for e in part if e['ev'] == 'pred' and e['role'] == 't')
             chk.k(ok, 'model reproduces parts and call sequence',
@@ -553,16 +577,54 @@ def run(chk, drv, rng, tier):
             for _ in range(1 if tier == 'quick' else 2):
                 guarded(chk, check_history, chk, drv, make_history(rng, cls, tier))
     chk.extra['config_cells'] = len(cells)
-    # pairing lists against Python's own negative indexing, all k up to 40 (K on the index arithmetic)
     if drv is not None:
-        for k in range(2, 41):
-            for d in (1, 2):
-                if d > k:
-                    continue
-                rep, _ = drv.ask('pairidx', k=k, d=d)
-                want = [list(range(k))[i - d] for i in range(k)]
-                chk.k(rep['status'] == 'ok' and rep['idx'] == enc_list(want, str),
-                      'pairIdx = Python negative indexing', {'k': k, 'd': d, 'model': rep})
+        direct_ties(chk, drv, rng, tier)
+
+
+def direct_ties(chk, drv, rng, tier):
+    """gate K on the regenerated definitions and on the Python primitives they are written in, without an estimator"""
+    from zepid.causal.doublyrobust import crossfit as xf
+    # pairing lists against Python's own negative indexing, all k up to 40: the model's pairIdx and the regenerated
+    # prediction loop (run on k one-row parts) must both give the positions Python's subscript selects
+    for k in range(2, 41):
+        for d in (1, 2):
+            if d > k:
+                continue
+            rep, _ = drv.ask('pairidx', k=k, d=d)
+            want = [list(range(k))[i - d] for i in range(k)]
+            chk.k(rep['status'] == 'ok' and rep['idx'] == enc_list(want, str) and rep.get('gen') == enc_list(want, str),
+                  'pairIdx and the regenerated prediction loop = Python negative indexing', {'k': k, 'd': d, 'model': rep})
+    # Python's subscript rule as written in Model/PyList.lean (Py.get), including IndexError
+    for n in range(0, 6):
+        lst = [10 + j for j in range(n)]
+        for i in range(-n - 3, n + 3):
+            rep, _ = drv.ask('pyget', l=enc_list(lst, str), i=i)
+            try:
+                want = ('ok', str(lst[i]))
+            except IndexError:
+                want = ('err', None)
+            chk.k((rep['status'], rep.get('v')) == want, 'Py.get = Python subscripting', {'l': lst, 'i': i, 'model': rep})
+    # _sample_split_ itself on frames of every small size, including more parts than rows and n_splits = 1: the
+    # regenerated definition, given the draws observed (all parts but the last), returns every part
+    sizes = range(0, 26) if tier == 'quick' else range(0, 61)
+    for n in sizes:
+        for k in range(1, 8):
+            seed = int(rng.integers(0, 2 ** 31))
+            base = int(rng.integers(0, 50))
+            df = pd.DataFrame({'rid': np.arange(base, base + n)})
+            try:
+                parts = [[int(v) for v in p['rid']] for p in xf._sample_split_(df, n_splits=k, random_state=seed)]
+            except Exception as e:
+                chk.d(False, '_sample_split_ raised on a frame', {'n': n, 'k': k, 'seed': seed, 'err': repr(e)[:200]})
+                continue
+            rows = list(range(base, base + n))
+            rep, _ = drv.ask('samplesplit', k=k, rows=enc_list(rows, str),
+                             picks=';'.join(enc_list(p, str) for p in parts[:-1]) or '-')
+            ok = rep['status'] == 'ok' and rep.get('splits') == ';'.join(enc_list(p, str) for p in parts) \
+                and rep.get('model') == '1'
+            chk.k(ok, 'regenerated _sample_split_ reproduces every part of the real one',
+                  {'n': n, 'k': k, 'seed': seed, 'observed': parts, 'model': rep})
+            chk.count('sample_split_direct')
 
 
 def replay(rec):
